@@ -40,6 +40,9 @@ var defs = map[string]checkDef{
 	"C04": {Engine: "A", Pkg: "./enga", MinEvals: 200},
 	"C05": {Engine: "B", Pkg: "./engb", MinEvals: 1440, Exhaust: true},
 	"C07": {Engine: "B", Pkg: "./engb", MinEvals: 100},
+	"C08": {Engine: "B", Pkg: "./engb", MinEvals: 100},
+	"C09": {Engine: "B", Pkg: "./engb", MinEvals: 100},
+	"C10": {Engine: "B", Pkg: "./engb", MinEvals: 100},
 	"C12": {Engine: "A", Pkg: "./enga", MinEvals: 30000},
 	"C14": {Engine: "A", Pkg: "./enga", MinEvals: 1000},
 	"C15": {Engine: "A", Pkg: "./enga", MinEvals: 1000},
